@@ -35,7 +35,7 @@ import (
 )
 
 const (
-	nNodes  = 5
+	nNodes  = 5 // independent node keys; the pool holds one more: the parity partner of N0
 	nProbes = 4
 )
 
@@ -223,9 +223,18 @@ func newWorld(t testing.TB, run *hx.Run, n int, real bool, np int) *world {
 	for i := 0; i < nNodes; i++ {
 		u := c.User(fmt.Sprintf("N%d", i))
 		w.nodes = append(w.nodes, u)
+	}
+	// N5 = −N0: the two compressed public keys differ only in the leading 02/03 parity byte (private keys d and
+	// n−d); both are ordinary node keys. Key handling that drops or ignores that byte collides on this pair.
+	_, neg := c.ParityPair("N0")
+	w.nodes = append(w.nodes, neg)
+	for _, u := range w.nodes {
 		k := u.Account().PublicKey().Bytes()
 		w.nodeKey = append(w.nodeKey, k)
 		w.byKey[hx.Hex(k)] = u
+	}
+	if !bytes.Equal(w.nodeKey[0][1:], w.nodeKey[nNodes][1:]) || w.nodeKey[0][0] == w.nodeKey[nNodes][0] {
+		t.Fatalf("N0/N5 are not a parity pair: %x %x", w.nodeKey[0], w.nodeKey[nNodes])
 	}
 	w.prev = w.observe()
 	return w
@@ -1480,11 +1489,163 @@ func TestRun(t *testing.T) {
 		}
 		run.Sample(strings.Join(first, "\n"))
 	}
+	// directed long cases: cross the wrap of the snapshot ring while both candidate sets go from non-empty to
+	// empty and back (every tick alone in its block, so the monitor judges both publications at every tick)
+	rings := 4
+	if run.Tier == "thorough" {
+		rings = 10
+	}
+	for ri := 0; ri < rings; ri++ {
+		rng := run.Rand(1000 + ri)
+		n := []int{1, 7, 4, 1}[ri%4]
+		real := ri%4 == 2
+		w := newWorld(t, run, n, real, nProbes)
+		w.wf = true
+		g := &gen{w: w, rng: rng}
+		run.Case(caseID(fmt.Sprintf("s%d.%d.r%d", run.Seed, run.Shard, ri), n, real, nProbes), w.caseAttrs("wf")...)
+		g.ringCase()
+	}
+}
+
+// ---------------------------------------------------------------- directed ring-wrap cases
+
+func (g *gen) one(line string) {
+	g.w.execBlock([]string{line})
+	g.w.run.Count("ring.ops")
+}
+
+// presentKeys: keys that currently sit in the legacy list, the structured list or both (from the last observation)
+func (g *gen) presentKeys() (legacy, structured []string) {
+	for _, c := range g.w.prev.cands {
+		legacy = append(legacy, hx.Hex(c.k))
+	}
+	for _, c := range g.w.prev.cands2 {
+		structured = append(structured, hx.Hex(c.k))
+	}
+	return
+}
+
+func (g *gen) tickOK() {
+	d := int64(1)
+	switch g.rng.IntN(6) {
+	case 0:
+		d = 2
+	case 1:
+		d = int64(2 + g.rng.IntN(12)) // a jump counts as one step of the ring
+	}
+	g.one(fmt.Sprintf("op . h=0 alpha tick %s", new(big.Int).Add(g.w.spEpoch, big.NewInt(d))))
+}
+
+func (g *gen) addSome(min int) {
+	w := g.w
+	// the parity pair is always among the chosen keys
+	idx := []int{0, nNodes}
+	for _, i := range g.rng.Perm(nNodes - 1) {
+		if len(idx) < min || g.rng.IntN(3) == 0 {
+			idx = append(idx, i+1)
+		}
+	}
+	for _, i := range idx {
+		k := hx.Hex(w.nodeKey[i])
+		mode := g.rng.IntN(5) // 0,1: both lists  2: legacy  3: structured  4: structured, then maintenance
+		if mode <= 2 {
+			g.ser++
+			b := append([]byte{byte(g.ser), 0}, w.nodeKey[i]...)
+			b = append(b, byte(g.ser))
+			if g.rng.IntN(2) == 0 {
+				g.one(fmt.Sprintf("op . h=0 %s,alpha addPeer %s", k, hx.Hex(b)))
+			} else {
+				g.one(fmt.Sprintf("op . h=0 alpha addPeerIR %s", hx.Hex(b)))
+			}
+		}
+		if mode != 2 {
+			g.one(fmt.Sprintf("op . h=0 %s,alpha addNode %s 1 %s %s", k, k, g.bytesList(), g.attrs()))
+		}
+		if mode == 4 {
+			g.one(fmt.Sprintf("op . h=0 alpha updateStateIR 3 %s", k))
+		}
+	}
+}
+
+// removeAll empties the chosen candidate lists with every removing method
+func (g *gen) removeAll(legacyToo, structuredToo bool) {
+	l, s2 := g.presentKeys()
+	seen := map[string]bool{}
+	var ks []string
+	if legacyToo {
+		ks = append(ks, l...)
+	}
+	if structuredToo {
+		ks = append(ks, s2...)
+	}
+	for _, k := range ks {
+		if seen[k] {
+			continue
+		}
+		seen[k] = true
+		switch g.rng.IntN(3) {
+		case 0:
+			g.one(fmt.Sprintf("op . h=0 alpha deleteNode %s", k))
+		case 1:
+			g.one(fmt.Sprintf("op . h=0 alpha updateStateIR 2 %s", k))
+		default:
+			g.one(fmt.Sprintf("op . h=0 %s,alpha updateState 2 %s", k, k))
+		}
+	}
+}
+
+func (g *gen) noise() {
+	switch g.rng.IntN(8) {
+	case 0:
+		g.one(fmt.Sprintf("op . h=0 alpha tick %s", g.w.spEpoch)) // equal epoch: refused
+	case 1:
+		g.one(fmt.Sprintf("op . h=0 alpha updateStateIR 3 %s", hx.Hex(hx.Pick(g.rng, g.w.nodeKey))))
+	case 2:
+		g.one(fmt.Sprintf("op . h=0 - tick %s", new(big.Int).Add(g.w.spEpoch, big.NewInt(1))))
+	}
+}
+
+func (g *gen) ringCase() {
+	w := g.w
+	for i, ns := 0, g.rng.IntN(3); i < ns; i++ {
+		g.one(fmt.Sprintf("op . h=0 alpha subscribe %s", hx.Hex(w.probes[i].BytesBE())))
+	}
+	// a few ticks on the deployed (empty) ring first, so that the wrap position differs between cases
+	for i := g.rng.IntN(4); i > 0; i-- {
+		g.tickOK()
+	}
+	rounds := 1 + g.rng.IntN(2)
+	for r := 0; r < rounds; r++ {
+		g.addSome(2)
+		for i := 1 + g.rng.IntN(2); i > 0; i-- {
+			g.tickOK() // non-empty maps go into one or two ring slots
+		}
+		switch g.rng.IntN(4) {
+		case 0:
+			g.removeAll(true, false) // only the legacy list is emptied
+		case 1:
+			g.removeAll(false, true)
+		default:
+			g.removeAll(true, true)
+		}
+		// keep ticking until the ring index has passed the slots that held the non-empty maps
+		for i := int(w.prev.count.Int64()) + 1 + g.rng.IntN(3); i > 0; i-- {
+			g.tickOK()
+			g.noise()
+		}
+		if g.rng.IntN(2) == 0 {
+			// re-add after the wrap, publish, empty again
+			g.addSome(1)
+			g.tickOK()
+			g.removeAll(true, true)
+			g.tickOK()
+		}
+	}
 }
 
 // substitute replaces symbolic names in corpus files: $N<i> = public key of pool node i, $P<i> = probe i,
 // $BAL/$CNR = real Balance/Container, $NM = the Netmap contract, $NOM<i> = contracts without newEpoch/1,
-// $BLOB<i>[.<tag>] = a 37-byte node info of pool node i.
+// $BLOB<i>.<tag> = a 37-byte node info of pool node i. Node 5 is the parity partner of node 0 (same X, 02↔03).
 func (w *world) substitute(l string) string {
 	if !strings.Contains(l, "$") {
 		return l
